@@ -185,7 +185,23 @@ class _Parser:
         self._problem(msg)
 
     def is_buf(self, n, e) -> bool:
-        return isinstance(e, ast.Attribute) and e.attr == self.battr and self.term(n, e.value) == self.me
+        if isinstance(e, ast.Attribute) and e.attr == self.battr and self.term(n, e.value) == self.me:
+            return True
+        return self._is_alias_use(n, e)
+
+    def _is_alias_use(self, n, e) -> bool:
+        """`e` is a local that was bound to the buffer attribute (`buf = self.<buffer>`) and the attribute has not been
+        re-assigned between that binding and this use, so the local still denotes the current buffer."""
+        if not (isinstance(e, ast.Name) and isinstance(e.ctx, ast.Load) and e.id in self.aliases):
+            return False
+        dn = self.aliases[e.id]
+        for s in self.store_nodes:
+            if s.id == n.id:
+                continue
+            if self.cfg.find_path(dn.id, s.id) is not None and self.cfg.find_path(s.id, n.id, avoid_nodes=[dn.id]) is not None:
+                self._problem(f"parse: `{e.id}` aliases the buffer across a re-assignment of self.{self.battr}: `{n.text()}`", n)
+                return False
+        return True
 
     # -------------------------------------------------------------- the buffer, by role
     def _find_buffer(self) -> None:
@@ -202,6 +218,20 @@ class _Parser:
             return
         self.battr = next(iter(names))
         self.buf = ("attr", self.me, self.battr)
+        # local aliases of the buffer: `x = self.<buffer>` for a temporary x; and the nodes that re-assign the attribute
+        sd = single_defs(self.f.node)
+        self.aliases = {}
+        self.store_nodes = []
+        for n in self.cfg.nodes:
+            st = n.ast
+            if n.kind != "stmt" or n.copy_of:
+                continue
+            if isinstance(st, ast.Assign) and len(st.targets) == 1 and isinstance(st.targets[0], ast.Name) and st.targets[0].id in sd \
+                    and isinstance(st.value, ast.Attribute) and st.value.attr == self.battr and self.term(n, st.value.value) == self.me:
+                self.aliases[st.targets[0].id] = n
+            tg = st.targets if isinstance(st, ast.Assign) else [st.target] if isinstance(st, (ast.AugAssign, ast.AnnAssign)) else []
+            if any(isinstance(t, ast.Attribute) and t.attr == self.battr for t in tg):
+                self.store_nodes.append(n)
 
     # -------------------------------------------------------------- classification of every access
     def _scan(self) -> None:
@@ -211,7 +241,7 @@ class _Parser:
                     continue
                 par = None
                 for a in walk_expr(root):
-                    if isinstance(a, ast.Attribute) and a.attr == self.battr and self.term(n, a.value) == self.me:
+                    if (isinstance(a, ast.Attribute) and a.attr == self.battr and self.term(n, a.value) == self.me) or self._is_alias_use(n, a):
                         if par is None:
                             par = _parents(root)
                         self._classify(n, root, a, par)
@@ -230,6 +260,12 @@ class _Parser:
             self._problem(f"parse: buffer deleted/modified in place: `{n.text()}`", n)
             return
         self.read_nodes.add(n.id)
+        if isinstance(st, ast.Assign) and st.value is a and len(st.targets) == 1 and isinstance(st.targets[0], ast.Name) and st.targets[0].id in self.aliases \
+                and self.aliases[st.targets[0].id] is n:
+            uses = [x for x in walk_own(self.f.node) if isinstance(x, ast.Name) and x.id == st.targets[0].id and isinstance(x.ctx, ast.Load)]
+            bare_ret = [m for m in self.cfg.nodes if m.kind == "return" and m.exprs and m.exprs[0] in uses]
+            if not bare_ret:
+                return  # the binding itself; every use of the alias is classified where it occurs
         if isinstance(st, ast.Assign) and st.value is a and len(st.targets) == 1 and isinstance(st.targets[0], ast.Name):
             # `tmp = self.<buffer>` where tmp is a temporary that is only ever returned bare: the same as `return self.<buffer>`
             tmp = st.targets[0].id
